@@ -404,6 +404,7 @@ def check_property(pid, tier='quick', seed=0):
     t0 = time.time()
     names = units_for(pid)
     from . import cex as _cx
+    _cx.DEEP = (tier == 'thorough')
     if not names and pid not in _cx.PROPERTY_BOUNDED:
         print('UNDECIDED property=%s no unit serves this property' % pid)
         return 2
